@@ -498,6 +498,28 @@ func genCase(r *hx.Rand, tier string) *caseT {
 		}
 		k.Wrap = ""
 	}
+	onlyPrimitives := true // the router.Context helpers expand differently on a writer that is already committed
+	for _, op := range k.Prog {
+		switch op.K {
+		case "H", "Hc", "D", "W", "B", "F", "C", "P", "Ws":
+		default:
+			onlyPrimitives = false
+		}
+	}
+	if !simple && onlyPrimitives && k.Wrap == "" && !k.Recovery && !k.Head && r.Chance(1, 20) {
+		// a middleware in front of the compression middleware uses the writer before the chain goes on: an informational
+		// response (harmless), or a final status / body bytes / a flush (the response is committed: open finding K15r)
+		switch r.Intn(5) {
+		case 0:
+			k.PreOp = &opT{K: "W", Code: hx.Pick(r, []int{100, 103, 102})}
+		case 1, 2:
+			k.PreOp = &opT{K: "W", Code: hx.Pick(r, []int{200, 201, 404, 500, 204, 304})}
+		case 3:
+			k.PreOp = &opT{K: "B", Data: []byte(hx.Pick(r, []string{"prefix:", "\xef\xbb\xbf", "<!-- build 7 -->\n"}))}
+		default:
+			k.PreOp = &opT{K: "F"}
+		}
+	}
 	return k
 }
 
@@ -548,6 +570,7 @@ func genSeq(r *hx.Rand, tier string) []caseT {
 	var g []caseT
 	for len(g) < n {
 		k := genCase(r, tier)
+		k.PreOp = nil // sequence members run on one shared router without an extra middleware in front
 		if k.Recovery || len(k.Pre) > 0 || k.Wrap != "" || hasOp(k.Prog, "Hj") || hasOp(k.Prog, "Cx") || len(k.Group) > 0 {
 			continue
 		}
@@ -597,6 +620,10 @@ func fixedCases() []*caseT {
 	gz := sp("gzip")
 	ct := opT{K: "H", Key: "Content-Type", Vals: []string{"text/plain"}}
 	return []*caseT{
+		// K15r: a middleware in front commits the response before the compression middleware runs
+		{Path: "/p", AE: gz, PreOp: &opT{K: "W", Code: 201}, Prog: []opT{ct, {K: "B", Data: []byte("hello hello hello hello hello hello")}}},
+		{Path: "/p", AE: gz, PreOp: &opT{K: "B", Data: []byte("prefix:")}, Prog: []opT{ct, {K: "B", Data: []byte("hello hello hello hello hello hello")}}},
+		{Path: "/p", AE: gz, PreOp: &opT{K: "W", Code: 103}, Prog: []opT{ct, {K: "B", Data: []byte("hello hello hello hello hello hello")}}},
 		// a single Write above 64 KiB after the decision; the client refuses the unencoded response as well
 		{Path: "/p", AE: gz, Prog: []opT{ct, {K: "B", Data: bytes.Repeat([]byte("d"), 600)}, {K: "B", Data: bytes.Repeat([]byte("L"), 204816)}, {K: "B", Data: []byte("tail")}}},
 		{Path: "/p", AE: sp("identity;q=0"), Prog: []opT{ct, {K: "B", Data: []byte("hello")}}},
